@@ -37,6 +37,8 @@ struct Case {
     forms: Vec<usize>,
     sc_module: bool,
     recursive_fragment: bool,
+    /// corpus cases: the known-finding class this witness belongs to (computed from the input for generated cases)
+    corpus_class: Option<&'static str>,
 }
 
 fn code_id(case: usize, form: usize) -> usize {
@@ -172,14 +174,117 @@ fn c02_opts(rng: &mut Rng, s: &ASchema) -> Opts {
     o
 }
 
+/// response keys / variable names / input field names of one scope that collide after snake-casing
+fn snake_collision(names: &[String]) -> bool {
+    use heck::ToSnakeCase;
+    for (i, a) in names.iter().enumerate() {
+        for b in &names[i + 1..] {
+            if a != b && a.to_snake_case() == b.to_snake_case() {
+                return true;
+            }
+        }
+    }
+    false
+}
+
+fn sels_have(sels: &[ASel], frags: &[AFrag], pred: &dyn Fn(&[ASel]) -> bool) -> bool {
+    if pred(sels) {
+        return true;
+    }
+    let _ = frags;
+    sels.iter().any(|s| match s {
+        ASel::Field { sub, .. } | ASel::Inline { sub, .. } => sels_have(sub, frags, pred),
+        _ => false,
+    })
+}
+
+fn keys_of_set(sels: &[ASel]) -> Vec<String> {
+    sels.iter().filter_map(|s| if let ASel::Field { alias, name, .. } = s { Some(alias.clone().unwrap_or_else(|| name.clone())) } else { None }).collect()
+}
+
+/// names of the structs the generator derives from selection paths (prefix + CamelCase(key)); a
+/// collision = two different paths giving one name
+fn path_names(prefix: &str, sels: &[ASel], out: &mut Vec<String>) {
+    for s in sels {
+        match s {
+            ASel::Field { alias, name, sub } if !sub.is_empty() => {
+                let n = format!("{}{}", prefix, alias.as_ref().unwrap_or(name).to_upper_camel_case());
+                out.push(n.clone());
+                path_names(&n, sub, out);
+            }
+            ASel::Inline { on, sub } => {
+                let n = format!("{}On{}", prefix, on);
+                out.push(n.clone());
+                path_names(&n, sub, out);
+            }
+            _ => {}
+        }
+    }
+}
+
 /// known-finding classes of C02, computed from the input alone (never from the failure)
 fn finding_class(c: &Case, codes: &[String]) -> Option<&'static str> {
     let has = |code: &str| codes.iter().any(|e| e.starts_with(code));
-    if c.recursive_fragment && has("E0275") {
+    if c.recursive_fragment && has("E0275") && c.opts.response_derives.as_deref().map(|d| d.contains("Serialize")).unwrap_or(false) {
         // serde cannot instantiate `Serialize` for a type containing itself through #[serde(flatten)]
         return Some("serialize-derive-on-recursive-fragment");
     }
-    None
+    let all_sets = |pred: &dyn Fn(&[ASel]) -> bool| c.doc.ops.iter().any(|o| sels_have(&o.sels, &c.doc.frags, pred)) || c.doc.frags.iter().any(|f| sels_have(&f.sels, &c.doc.frags, pred));
+    let vars_collide = c.doc.ops.iter().any(|o| snake_collision(&o.vars.iter().map(|v| v.name.clone()).collect::<Vec<_>>()));
+    let inputs_collide = c.schema.types.iter().any(|t| matches!(t, AType::Input { fields, .. } if snake_collision(&fields.iter().map(|f| f.0.clone()).collect::<Vec<_>>())));
+    if has("E0124") && (vars_collide || inputs_collide || all_sets(&|set| snake_collision(&keys_of_set(set)))) {
+        return Some("sibling-names-equal-after-snake-casing");
+    }
+    if has("E0124") && all_sets(&|set| keys_of_set(set).iter().any(|k| k == "on") && set.iter().any(|s| matches!(s, ASel::Inline { .. } | ASel::Spread { .. }))) {
+        return Some("field-named-on-next-to-variant-selection");
+    }
+    if has("E0428") && !c.opts.normalization_rust && c.doc.ops.iter().any(|o| { use heck::ToSnakeCase; o.name.to_snake_case() == o.name }) {
+        // `struct list_items;` next to `mod list_items`: both live in the type namespace
+        return Some("operation-name-equals-its-module-name");
+    }
+    if has("E0428") {
+        let mut names = Vec::new();
+        for o in &c.doc.ops {
+            path_names(&o.name, &o.sels, &mut names);
+        }
+        for f in &c.doc.frags {
+            names.push(f.name.clone());
+            path_names(&f.name, &f.sels, &mut names);
+        }
+        let mut sorted = names.clone();
+        sorted.sort();
+        sorted.dedup();
+        if sorted.len() != names.len() {
+            return Some("selection-paths-concatenate-to-one-type-name");
+        }
+    }
+    c.corpus_class.filter(|_| false)
+}
+
+/// fixed witnesses of the open known findings of C02 (valid inputs whose generated code does not compile)
+fn corpus() -> Vec<(ASchema, ADoc, Opts, &'static str)> {
+    let f = |n: &str, t: ATy| AField { name: n.into(), ty: t, dep: None };
+    let obj = |name: &str, implements: Vec<&str>, fields: Vec<AField>| AType::Object { name: name.into(), implements: implements.into_iter().map(String::from).collect(), fields, ext_fields: vec![] };
+    let fld = |n: &str, sub: Vec<ASel>| ASel::Field { alias: None, name: n.into(), sub };
+    let schema = ASchema {
+        types: vec![
+            AType::Interface { name: "Animal".into(), fields: vec![f("name", ATy::named("String")), f("on", ATy::named("Boolean"))] },
+            obj("Dog", vec!["Animal"], vec![f("name", ATy::named("String")), f("on", ATy::named("Boolean")), f("fooBar", ATy::named("Int")), f("foo_bar", ATy::named("Int")), f("friend", ATy::named("Dog"))]),
+            obj("Query", vec![], vec![f("animal", ATy::named("Animal")), f("dog", ATy::named("Dog")), f("a", ATy::named("Dog")), f("aB", ATy::named("Dog")), f("echo", ATy::named("Int"))]),
+        ],
+        query: Some("Query".into()),
+        mutation: None,
+        subscription: None,
+    };
+    let doc = |vars: Vec<AVar>, sels: Vec<ASel>, frags: Vec<AFrag>| ADoc { ops: vec![AOp { kind: "query", name: "W".into(), vars, sels }], frags };
+    let var = |n: &str| AVar { name: n.into(), ty: ATy::named("Int"), default: None };
+    vec![
+        (schema.clone(), doc(vec![var("fooBar"), var("foo_bar")], vec![fld("echo", vec![])], vec![]), Opts::default(), "sibling-names-equal-after-snake-casing"),
+        (schema.clone(), doc(vec![], vec![fld("dog", vec![fld("fooBar", vec![]), fld("foo_bar", vec![])])], vec![]), Opts::default(), "sibling-names-equal-after-snake-casing"),
+        (schema.clone(), doc(vec![], vec![fld("a", vec![fld("friend", vec![fld("name", vec![])])]), fld("aB", vec![fld("name", vec![])]), ASel::Field { alias: Some("aFriend".into()), name: "dog".into(), sub: vec![fld("name", vec![])] }], vec![]), Opts::default(), "selection-paths-concatenate-to-one-type-name"),
+        (schema.clone(), doc(vec![], vec![fld("animal", vec![ASel::Typename, fld("on", vec![]), ASel::Inline { on: "Dog".into(), sub: vec![fld("name", vec![])] }])], vec![]), Opts::default(), "field-named-on-next-to-variant-selection"),
+        (schema.clone(), ADoc { ops: vec![AOp { kind: "query", name: "list_items".into(), vars: vec![], sels: vec![fld("echo", vec![])] }], frags: vec![] }, Opts::default(), "operation-name-equals-its-module-name"),
+    ]
 }
 
 pub fn run(a: &Args) -> i32 {
@@ -198,28 +303,39 @@ pub fn run(a: &Args) -> i32 {
     let mut plain_files: Vec<(String, String)> = Vec::new();
     let mut modules_of: BTreeMap<usize, Vec<vcore::extract::ExtractedModule>> = BTreeMap::new();
     let mut attempts = 0;
+    let mut corpus_iter = corpus().into_iter();
+    let n_cases = n_cases + corpus().len();
     while cases.len() < n_cases && attempts < n_cases * 3 {
         attempts += 1;
-        let schema = random_schema(&mut rng, &sk);
-        let doc = random_doc(&mut rng, &schema, &ok);
-        let mut opts = c02_opts(&mut rng, &schema);
+        let from_corpus = corpus_iter.next();
+        let is_corpus = from_corpus.is_some();
+        let (schema, doc, mut opts, corpus_class) = match from_corpus {
+            Some((s, d, o, c)) => (s, d, o, Some(c)),
+            None => {
+                let schema = random_schema(&mut rng, &sk);
+                let doc = random_doc(&mut rng, &schema, &ok);
+                let opts = c02_opts(&mut rng, &schema);
+                (schema, doc, opts, None)
+            }
+        };
         let idx = cases.len();
         let enums = enum_names(&schema);
         for (name, _) in &enums {
-            if rng.chance(20) {
+            if !is_corpus && rng.chance(20) {
                 opts.extern_enums.push(name.clone());
             }
         }
-        let use_sc_module = rng.chance(40);
-        let sdl = schema.to_sdl(&RenderKnobs::default());
+        let use_sc_module = !is_corpus && rng.chance(40);
+        // some schema printers re-declare the built-in scalars (`scalar ID` …): still a supported input
+        let sdl = schema.to_sdl(&RenderKnobs { sdl_builtin_scalars: rng.chance(30), ..RenderKnobs::default() });
         let qtext = doc.render();
-        let all_forms = idx % forms_every == 0;
-        let mut c = Case { idx, schema, doc, sdl, qtext, opts, forms: vec![0], sc_module: use_sc_module, recursive_fragment: false };
+        let all_forms = !is_corpus && idx % forms_every == 0;
+        let mut c = Case { idx, schema, doc, sdl, qtext, opts, forms: vec![0], sc_module: use_sc_module, recursive_fragment: false, corpus_class };
         c.recursive_fragment = c.doc.has_recursive_fragment();
         if c.recursive_fragment {
             // `Serialize` on a recursive flattened fragment is a known limitation of serde (E0275);
             // keep a few such cases to exercise the finding, drop `Serialize` from the others
-            if !rng.chance(15) {
+            if !is_corpus && !rng.chance(15) {
                 if let Some(d) = &c.opts.response_derives {
                     if d.contains("Serialize") {
                         c.opts.response_derives = Some("Debug,PartialEq".into());
@@ -247,7 +363,14 @@ pub fn run(a: &Args) -> i32 {
             }
         };
         let ops: Vec<(String, String)> = modules.iter().map(|m| (m.sexp.items()[8].as_str().unwrap_or("").to_string(), m.mod_name.clone())).collect();
-        serde_codes.push(CaseCode { id: code_id(idx, 0), prelude: prelude(&c.schema, &lopts, true), tokens, ops: ops.clone(), enums: vec![], no_serialize: true });
+        let mut lprelude = prelude(&c.schema, &lopts, true);
+        if lopts.response_derives.as_deref().map(|d| d.contains("Serialize")).unwrap_or(false) {
+            // requesting `Serialize` must give a usable impl: instantiate it
+            for (_, module) in &ops {
+                lprelude.push_str(&format!("    pub fn _ser_{m}(v: &{m}::ResponseData) -> Option<String> {{ serde_json::to_string(v).ok() }}\n", m = module));
+            }
+        }
+        serde_codes.push(CaseCode { id: code_id(idx, 0), prelude: lprelude, tokens, ops: ops.clone(), enums: vec![], no_serialize: true });
         modules_of.insert(idx, modules);
         if all_forms {
             // ---- form C: the CLI-written file, used as a module file ---------------------------
@@ -336,6 +459,12 @@ pub fn run(a: &Args) -> i32 {
                     *mention_routes.entry(route).or_insert(0) += 1;
                 }
             }
+            // the operation struct next to the module (both in the type namespace)
+            let h = ctx.model.ask(&tagged("scope-header", vec![m.sexp.items()[1].clone(), m.sexp.items()[3].clone()]));
+            if h.head() == Some("scope-header") && h.items()[1].as_str() == Some("true") {
+                scope_ok = false;
+                scope_reports.push(format!("operation struct and module are both named {}", m.mod_name));
+            }
             let r = ctx.model.ask(&tagged("scope", vec![list(m.items.clone()), strs(sup.iter())]));
             match r.head() {
                 Some("scope") => {
@@ -366,6 +495,11 @@ pub fn run(a: &Args) -> i32 {
                 json!({"schema": c.sdl, "query": c.qtext, "options": c.opts.describe(), "delivery_form": FORMS[form],
                        "rustc_errors": errors.iter().take(6).collect::<Vec<_>>(), "detail": extra})
             };
+            if compiled {
+                if let Some(cc) = c.corpus_class {
+                    rep.count(&format!("known-finding-witness-now-compiles:{}", cc));
+                }
+            }
             if !compiled {
                 let codes: Vec<String> = errors.iter().map(|e| e.split(':').next().unwrap_or("").to_string()).collect();
                 let class = finding_class(c, &codes).map(|s| s.to_string()).unwrap_or_else(|| {
